@@ -265,6 +265,19 @@ func shardC05(c *Ctx, shard, nshards int) {
 		if s == nil {
 			continue
 		}
+		if r.P(0.35) {
+			// the same part in other units (metres ... micrometres) and away from the origin: closure must not depend on
+			// the absolute size of a cell or on the magnitude of the coordinates
+			k := pickOne(r, []float64{1e-5, 1e-4, 1e-3, 1e-2, 1e3, 1e6})
+			s = sdf.ScaleUniform3D(s, k)
+			desc = fmt.Sprintf("ScaleUniform3D[%g](%s)", k, desc)
+			if r.P(0.4) {
+				far := s.BoundingBox().Size().MaxComponent() * pickOne(r, []float64{10, 1e3, 1e5})
+				t := v3.Vec{X: far * r.R(-1, 1), Y: far * r.R(-1, 1), Z: far * r.R(-1, 1)}
+				s = sdf.Transform3D(s, sdf.Translate3d(t))
+				desc = fmt.Sprintf("Translate%v %s", t, desc)
+			}
+		}
 		rd := rk.mk(cells)
 		if r.P(0.4) {
 			// snap: translate the scene so that a lattice node lies exactly on a feature plane/centre
